@@ -50,8 +50,11 @@ VARIABLES l,
           closeIssued, closeRet,   \* ids whose server-side Close() was called / has returned
           gone,           \* ids seen absent from Server.Sessions() after they were minted
           open,           \* requests in progress: k -> request record with the flags computed at issue
-          prev            \* Server.Sessions() at the end of the previous step
-mvars == <<l, T, stateless, minted, owner, idlePost, idleAny, delIssued, delDone, closeIssued, closeRet, gone, open, prev>>
+          prev,           \* Server.Sessions() at the end of the previous step
+          tied            \* ids on which a request was issued at exactly the idle deadline while the timer was armed:
+                          \* the timer may have fired at that instant, and its Close() (which waits for the handlers
+                          \* that were admitted in the race) may complete at any later time - silently for the monitor
+mvars == <<l, T, stateless, minted, owner, idlePost, idleAny, delIssued, delDone, closeIssued, closeRet, gone, open, prev, tied>>
 
 EmptyFn == [k \in {} |-> 0]
 Zero == [i \in MIds |-> 0]
@@ -125,7 +128,10 @@ Step(e) ==
       Deadline(i) == idlePost[i] + T
       TimeoutLegit(i) == T > 0 /\ t >= Deadline(i) /\ \A k \in During(i) : all[k].t >= Deadline(i)
       died == {i \in prev : i \notin live}
-      Unexplained(i) == ~(i \in delIssued1 \/ i \in closeIssued1 \/ TimeoutLegit(i))
+      tied1 == tied \cup {i \in minted : T > 0 /\ t = Deadline(i)
+                                          /\ (\E k \in DOMAIN iss : iss[k].tgt = i)
+                                          /\ \A k \in PostsOn(open, i) : open[k].t >= Deadline(i)}
+      Unexplained(i) == ~(i \in delIssued1 \/ i \in closeIssued1 \/ TimeoutLegit(i) \/ i \in tied1)
       ForeignNow(i) == \E k \in DOMAIN all : all[k].tgt = i /\ all[k].foreign   \* issued now or still open
   IN
   /\ \A d \in dn : Check(l, "Harness", d.k \in DOMAIN all)
@@ -150,18 +156,18 @@ Step(e) ==
   /\ idleAny' = idleAny1
   /\ delIssued' = delIssued1 /\ delDone' = delDone1 /\ closeIssued' = closeIssued1 /\ closeRet' = closeRet1
   /\ gone' = gone \cup (minted1 \ live)
-  /\ open' = open1 /\ prev' = live
+  /\ open' = open1 /\ prev' = live /\ tied' = tied1
   /\ UNCHANGED <<T, stateless>>
 
 Reset(e) == /\ T' = e.timeout /\ stateless' = e.stateless
             /\ minted' = {} /\ owner' = Nobody /\ idlePost' = Zero /\ idleAny' = Zero
             /\ delIssued' = {} /\ delDone' = {} /\ closeIssued' = {} /\ closeRet' = {} /\ gone' = {}
-            /\ open' = EmptyFn /\ prev' = {}
+            /\ open' = EmptyFn /\ prev' = {} /\ tied' = {}
 
 MInit == /\ l = 1 /\ T = 0 /\ stateless = FALSE
          /\ minted = {} /\ owner = Nobody /\ idlePost = Zero /\ idleAny = Zero
          /\ delIssued = {} /\ delDone = {} /\ closeIssued = {} /\ closeRet = {} /\ gone = {}
-         /\ open = EmptyFn /\ prev = {} /\ MarkInit
+         /\ open = EmptyFn /\ prev = {} /\ tied = {} /\ MarkInit
 
 MNext == /\ l <= NLines
          /\ l' = l + 1
